@@ -506,7 +506,8 @@ def _check_config_cli(rep: Report, rule: str, m) -> None:
     rep.check(ok, rule, main.module, main.qualname, "-m together with [accounting_methods] => exit 1", "no sys.exit(<non-zero>) is reached exactly under 'args.method is given and the configuration has an accounting_methods table': a contradictory method specification would be accepted (one of the two silently ignored)", loc(main.node))
     va = prog.func("rp2.rp2_main", "_validate_accounting_methods")
     txt = unparse(va.node)
-    rep.check("if normalized_plugin_name in accounting_methods:" in txt and "accounting_methods: Set[str] = country.get_accounting_methods()" in txt, rule, va.module, va.qualname, "validated methods = plugins present AND accepted by the country", "_validate_accounting_methods no longer intersects the discovered plugins with country.get_accounting_methods()", loc(va.node))
+    member_tests = [n for n in ast.walk(va.node) if isinstance(n, ast.Compare) and len(n.ops) == 1 and isinstance(n.ops[0], ast.In) and unparse(n.comparators[0]) == "accounting_methods"]  # as an if statement or a comprehension filter
+    rep.check(bool(member_tests) and "accounting_methods: Set[str] = country.get_accounting_methods()" in txt, rule, va.module, va.qualname, "validated methods = plugins present AND accepted by the country", "_validate_accounting_methods no longer intersects the discovered plugins with country.get_accounting_methods()", loc(va.node))
     sp = prog.func("rp2.rp2_main", "_setup_paths")
     stxt = unparse(sp.node)
     for what, needle in {"missing configuration file": "if not Path(configuration_file).exists():", "input not .ods": "if not input_file.endswith('.ods'):", "missing input file": "if not Path(input_file).exists():"}.items():
